@@ -462,15 +462,7 @@ class LabSetup:
                 self.e[i,:] = pulse_polarizations[i]
             self.e[3,:] = detection_polarization
             
-            e = self.e
-            
-            F4e = numpy.zeros(3)
-            F4e[0] = numpy.dot(e[3,:],e[2,:])*numpy.dot(e[1,:],e[0,:])
-            F4e[1] = numpy.dot(e[3,:],e[1,:])*numpy.dot(e[2,:],e[0,:])
-            F4e[2] = numpy.dot(e[3,:],e[0,:])*numpy.dot(e[2,:],e[1,:])
-            
-            self.F4eM4 = numpy.dot(F4e,self.M4)
-            
+            self._update_F4eM4()
             
         else:
             text = "pulse_polarizations requires "+ \
@@ -478,6 +470,20 @@ class LabSetup:
             raise Exception(text)
             
         self.detection_polarization = detection_polarization
+
+
+    def _update_F4eM4(self):
+        """Recalculates the orientational averaging vector from polarizations
+        
+        """
+        e = self.e
+        
+        F4e = numpy.zeros(3)
+        F4e[0] = numpy.dot(e[3,:],e[2,:])*numpy.dot(e[1,:],e[0,:])
+        F4e[1] = numpy.dot(e[3,:],e[1,:])*numpy.dot(e[2,:],e[0,:])
+        F4e[2] = numpy.dot(e[3,:],e[0,:])*numpy.dot(e[2,:],e[1,:])
+        
+        self.F4eM4 = numpy.dot(F4e,self.M4)
 
      
     def get_pulse_polarizations(self):
@@ -1173,6 +1179,9 @@ def _labarray(name, target):
     def prop(self,value):  
         at = getattr(self.labsetup,storage_name)  
         at[self.index,:] = value
+        if storage_name == "e":
+            # orientational averaging depends on the polarizations
+            self.labsetup._update_F4eM4()
         
     return prop
 
@@ -1428,6 +1437,7 @@ class LabField():
     
     def set_polarization(self, pol):
         self.labsetup.e[self.index,:] = pol
+        self.labsetup._update_F4eM4()
         
         
     def get_field(self, time=None, sign=1):
